@@ -239,6 +239,24 @@ pub fn run(out: &mut Out, seed: u64, thorough: bool, scn: Option<&str>) {
         history(out, &mut rng, &pool, 0, "max_run", Some((Cfg::EnableMax(n), LA6, reps)));
     }
     history(out, &mut rng, &pool, 0, "disabled_run", Some((Cfg::Disable, LA3, 6)));
+    // the maximum is re-configured in the middle of a streak of re-uses (lowered, raised, same value)
+    for (n1, n2) in [(3u8, 1u8), (2, 1), (3, 2), (255, 1), (1, 3), (2, 2), (4, 0), (0, 2)] {
+        let mgr = TableMgr { known: vec![] };
+        let mut rx = mk_rx(out, "labels", "reconfigure_mid_streak", 3, 64, 3, mgr, true);
+        let mut enc = Encapsulator::new(DefaultCrc {});
+        ev_cfg(out, &mut enc, Cfg::EnableMax(n1));
+        let k1 = if n1 == 0 || n1 > 6 { 5 } else { n1 as usize + 1 };
+        for i in 0..k1 {
+            let t = ev_encap(out, &mut enc, &pool.small[i % 4], 1, LA3, 0x0800, 64, None, None);
+            feed_tx(out, &mut rx, &t);
+        }
+        ev_cfg(out, &mut enc, Cfg::EnableMax(n2));
+        for i in 0..(n2 as usize + 4) {
+            let t = ev_encap(out, &mut enc, &pool.small[i % 4], 1, LA3, 0x0800, 64, None, None);
+            feed_tx(out, &mut rx, &t);
+        }
+        rx.ev_drain(out);
+    }
     // the all-zero 6-byte label must be refused every time, by encap and by encap_ext
     for use_ext in [false, true] {
         let mgr = TableMgr { known: vec![] };
